@@ -248,6 +248,17 @@ func c20Cases() []c20Case {
 	for _, b := range bodies {
 		add("body/"+b.name, c20Case{body: b.body})
 	}
+	// parenthesised callees of the marker functions
+	for _, m := range []struct{ name, call, result string }{
+		{"newset", "(Q.NewSet)(NewInt), NewStr, NewS", "S"},
+		{"bind", "(Q.Bind)(new(I), new(Impl)), NewImpl", "I"},
+		{"value", "(Q.Value)(3), NewStr, NewS", "S"},
+		{"ifacevalue", "(Q.InterfaceValue)(new(I), Impl{})", "I"},
+		{"struct", "(Q.Struct)(new(S), \"*\"), NewInt, NewStr", "S"},
+		{"fieldsof", "(Q.FieldsOf)(new(S), \"A\"), NewS, NewStr", "int"},
+	} {
+		add("paren-callee/"+m.name, c20Case{result: m.result, build: m.call})
+	}
 	// generic injector
 	out = append(out, c20Case{id: "C20/generic-injector", extraTop: "", body: "\tpanic(wire.Build(NewInt, NewStr, NewS))\n", result: "S"})
 	return out
